@@ -43,6 +43,7 @@ class Scratch:
     """unique file names inside the per-process scratch directory"""
 
     def __init__(self, ctx, case):
+        self.ctx = ctx
         self.dir = os.path.join(ctx.tmpdir(), f"{case.workload}-{case.index}")
         os.makedirs(self.dir, exist_ok=True)
         self.other = os.path.join(self.dir, "elsewhere")
@@ -209,3 +210,49 @@ def dense_fill(rng, targets, m, k, share=0.6):
                 grp.append(grp[0])
             for flt in group:
                 flt.add_alt(list(grp))
+
+
+class Choke:
+    """a binary target that takes a few writes and then fails like a full disk"""
+
+    def __init__(self, good_writes):
+        self.left = good_writes
+
+    def write(self, data):
+        if self.left <= 0:
+            raise OSError(28, "No space left on device")
+        self.left -= 1
+        return len(data)
+
+
+def refused_export(ctx, rng, f, sc):
+    """export to a target that REFUSES it (a closed / text-mode / read-only handle, a path in a directory that does not exist, a device that
+    fills up): the call fails - and, being a read of the structure, leaves it exactly as it was (whatever is compared afterwards)"""
+    import io
+    import os
+
+    how = rng.choice(["closed handle", "text-mode handle", "read-only handle", "path in a missing directory", "device full at once", "device full after a few writes"])
+    p = sc.path("refuse")
+    opened = None
+    if how == "closed handle":
+        target = io.BytesIO()
+        target.close()
+    elif how == "text-mode handle":
+        target = opened = open(p, "w")
+    elif how == "read-only handle":
+        with open(p, "wb") as fh:
+            fh.write(b"x")
+        target = opened = open(p, "rb")
+    elif how == "path in a missing directory":
+        target = os.path.join(sc.dir, "no-such-directory", "x.bin")
+    else:
+        target = Choke(0 if how.endswith("once") else rng.randint(1, 3))
+    try:
+        f.export(target)
+        ctx.count("exports_to_a_refusing_target_that_went_through")
+    except Exception:
+        ctx.count("refused_exports")
+    finally:
+        if opened is not None:
+            opened.close()
+    return how
